@@ -85,6 +85,11 @@ CHECKS = {
             "task, on message inputs/outputs and on terminal-event outputs; direct monitors on before/after dumps (frame, holder update, option cut, cross-process)",
             "The Scope functions are a transcription of find/update_data/set_data; the tie is differential (every task's data after every operation). `code` scripts and "
             "{{template}} readers are outside this fragment (C14). The generator keeps each name declared by at most one enclosing scope, as the property quantifies.", "5 C07"),
+    "C11": ("Lean 4 K1 theorems over translated tables (the task event writes the row before hooks and message; task and process rows have a column for every compared "
+            "item; both back ends keep every column) + differential monitor: the live process (dump without reload) against the stored procs/tasks rows after every operation "
+            "of generated runs, on the in-memory and the SQLite back end",
+            "Proof-level content is limited to what a row can hold and the order inside the task event. That every in-memory write is followed by a row write before the next "
+            "quiescent point is a whole-program discipline decided by the image comparison on the engine, not proved. `$params` (a recomputable memo) is excluded.", "5 C11"),
 }
 
 NOT_YET = {}
